@@ -458,6 +458,15 @@ func (e *cryptoEnum) run() {
 				}
 			}
 		}
+		// beyond 64 KiB (the functions take any length; an implementation that works in passes of 2^14 or 2^16 words or
+		// octets has its seams here): a few lengths behind every power of two up to 2^20 octets
+		for _, b := range []int{65536, 131072, 262144, 524288, 1048576} {
+			for _, d := range []int{0, 1, 4, 5, 4465} {
+				if b+d <= 1048576+5 && (thorough || b <= 131072 || d == 5) {
+					lens = append(lens, b+d)
+				}
+			}
+		}
 		for li, l := range lens {
 			if li%64 == 0 && !e.mine() {
 				// sharding by blocks of 64 lengths
@@ -556,6 +565,43 @@ func (e *cryptoEnum) run() {
 		}
 		e.c.Tick()
 	}
+	// model-directed parameters (EIA1): parameter tuples whose multiplication operands P or Q (keystream words, 2^-16 per
+	// tuple and predicate) have all bits of one residue class mod 4 set, or all clear, together with messages whose first
+	// blocks have the same regular structure — carry-less multiplication done with integer multiplications and guard bits
+	// overflows exactly on such operands, and no key alphabet produces them
+	if e.mac && e.mine() && e.c.Begin("eia1-directed", "alg1", "operands with a fully set / fully clear residue class mod 4") {
+		tuples, tries := eia1Directed(2, 1<<19, e.c.Tick)
+		e.c.Add("eia1_structured_operand_parameter_tuples", int64(len(tuples)))
+		e.c.Add("eia1_structured_operand_search_tries", tries)
+		if len(tuples) < 16 {
+			e.c.Cap(fmt.Sprintf("EIA1 operand search: only %d of 16 operand predicates have a parameter tuple after %d tries", len(tuples), tries))
+		}
+		for _, t := range tuples {
+			for _, fill := range []byte{0xFF, 0x55, 0xAA, 0x11, 0x22, 0x44, 0x88, 0x33, 0xCC, 0x0F, 0xF0, 0x77, 0xEE} {
+				for _, bits := range []int{61, 64, 72, 128, 200} {
+					nb := (bits + 7) / 8
+					payload := bytes.Repeat([]byte{fill}, nb)
+					for i := 16; i < nb; i++ {
+						payload[i] = byte(i)
+					}
+					if bits%8 != 0 {
+						payload[nb-1] &= 0xFF << uint(8-bits%8)
+					}
+					for _, via := range vias {
+						if via == "wrapper" && bits%8 != 0 {
+							continue
+						}
+						in := cryptoCase{Alg: 1, Via: via, Key: hex.EncodeToString(t.key[:]), Count: t.count, Bearer: t.bearer, Dir: t.dir, Bits: bits, Payload: hex.EncodeToString(payload)}
+						e.n++
+						if e.c.Begin("case", "alg1", in) {
+							e.exec(e.c, in)
+						}
+					}
+				}
+			}
+		}
+		e.c.Tick()
+	}
 	// history family: the functions must be pure — the same key/COUNT/bearer/direction used repeatedly with
 	// ascending, descending and repeated lengths (a keystream cache or other state carried between calls shows here)
 	for alg := 1; alg <= 3; alg++ {
@@ -622,6 +668,18 @@ func init() {
 			e := &cryptoEnum{c: c, exec: c07Exec, mac: true}
 			e.run()
 			c07Components(c)
+			if c.Shard == 0 {
+				// model branch coverage: the four combinations of the two reductions in the CMAC subkey derivation
+				seen := map[[2]bool]bool{}
+				for _, k := range cryptoKeys() {
+					a, b := refcrypto.CMACCarries(k)
+					seen[[2]bool{a, b}] = true
+				}
+				c.Add("cmac_subkey_reduction_combinations_covered_of_4", int64(len(seen)))
+				if len(seen) < 4 {
+					c.Cap(fmt.Sprintf("the key alphabet takes only %d of the 4 branch combinations of the CMAC subkey derivation", len(seen)))
+				}
+			}
 		},
 		Shards: func(string) int { return 16 },
 		Rule:   cryptoRule("NIA1/2/3 and NASMacCalculate against an independent 128-EIA1/2/3 reference (UIA2 with FRESH = bearer<<27, AES-CMAC re-implemented from RFC 4493, EIA3), message lengths 1..320 bits (NIA2: octets), single-bit messages at every position < 256."),
@@ -683,6 +741,47 @@ func zucDirected(mac bool, r, want int, maxTries int64, tick func()) (out []zucT
 		}
 		if hit {
 			out = append(out, t)
+		}
+	}
+	return out, tries
+}
+
+// eia1Directed walks a fixed sequence of parameter tuples and keeps, for each of the 16 predicates (operand P or Q;
+// residue class 0..3 of the bit positions mod 4; all set or all clear), the first `per` tuples that satisfy it.
+func eia1Directed(per int, maxTries int64, tick func()) (out []zucTuple, tries int64) {
+	x := uint64(0xD1B54A32D192ED03)
+	next := func() uint64 {
+		x ^= x << 13
+		x ^= x >> 7
+		x ^= x << 17
+		return x
+	}
+	found := map[int]int{}
+	classMask := func(r uint) uint64 { return 0x1111111111111111 << r }
+	for tries < maxTries && len(out) < 16*per {
+		tries++
+		if tries&(1<<16-1) == 0 && tick != nil {
+			tick()
+		}
+		var t zucTuple
+		a, b, c := next(), next(), next()
+		binary.BigEndian.PutUint64(t.key[:8], a)
+		binary.BigEndian.PutUint64(t.key[8:], b)
+		t.count = uint32(c)
+		t.bearer = uint8(c>>32) & 31
+		t.dir = uint8(c>>40) & 1
+		p, q := refcrypto.EIA1Operands(t.key, t.count, uint32(t.bearer), uint32(t.dir))
+		for oi, v := range []uint64{p, q} {
+			for r := uint(0); r < 4; r++ {
+				m := classMask(r)
+				for si, want := range []uint64{m, 0} {
+					k := oi*8 + int(r)*2 + si
+					if v&m == want && found[k] < per {
+						found[k]++
+						out = append(out, t)
+					}
+				}
+			}
 		}
 	}
 	return out, tries
